@@ -29,6 +29,14 @@ def register(claim):
           "output and internal signal with a reference interpreter executing the same spec on Python ints. Divergences are "
           "minimised to a root-cause signature. Exploration over programs and input sequences, bounded depth/size.",
           SIM_NOTE, "DESIGN.md 3/C03")
+    claim("C04",
+          "Generated sequential and coroutine designs with every reset flavour (sync/async x active high/low), noreset "
+          "flags, objects without default, on_reset actions and step_cond are driven with generated schedules asserting "
+          "reset at arbitrary clocks and durations (async: also as pulses between edges). Oracles: a reference interpreter "
+          "implementing the reset rule of the property, compared after every clock incl. the clocks with active reset, and "
+          "a reference-free metamorphic relation (trace after <prefix>.<reset> == trace from power-up) on fully resettable "
+          "designs. Bounded exploration.",
+          SIM_NOTE, "DESIGN.md 3/C04")
     claim("C09",
           "Every operator/method x operand-kind pair (bit, bv, u, s, Python int and cohdl.Integer on either side) x widths "
           "1..4 x ALL operand valuations: cohdl's constant folding (direct call and traced context + pyeval probe) compared "
